@@ -101,6 +101,7 @@ def run(idx, rep, tier):
     for fi, n in refl:
         rep.fail("R1", f"reflection {fi.key()}", f"setattr/__dict__ store that may write the verdict: {unparse(n)}", K.where(fi, n))
     seen_writers = set()
+    via_helper = set()
     helper_writers = []
     for s in stores:
         fi, t, v, st = s["fi"], s["target"], s["value"], s["stmt"]
@@ -127,7 +128,13 @@ def run(idx, rep, tier):
                   f"stores `{unparse(v) if isinstance(v, ast.AST) else v}` to the verdict; only the literal False may be stored after construction (monotone)",
                   K.where(fi, st))
         if qual not in WRITERS:
-            helper_writers.append(s)
+            own = K.owners_of(idx, fi, set(WRITERS))
+            if own:
+                # a private helper that stores the verdict on behalf of documented writers (and of nobody else)
+                seen_writers |= own
+                via_helper |= own
+            else:
+                helper_writers.append(s)
     rep.floor("R1", 9, "verdict stores")
 
     # unknown writers: a helper whose whole effect is `verdict = False` is followed to its callers,
@@ -141,6 +148,13 @@ def run(idx, rep, tier):
         if q not in seen_writers:
             rep.fail("R2", f"{q} missing-writer", f"documented cause {q} no longer stores the verdict", q)
 
+    # fail(): whatever else it does, it leaves the verdict False on every path (decided by interpretation: holds through helpers too)
+    ffail = idx.method("Fail", "_decide_match")
+    rep.analysed(ffail)
+    psf = Interp(idx, types={"self": "Fail"}, unknown_calls="residual", handlers={"self.default_match": lambda i, c, r, a, k: "DEFAULT"}).run_all(
+        ffail, args={"skip": []}, store={"self.matcher.csvpath.is_valid": True})
+    okf = bool(psf) and all(p.result[0] == "return" and p.final_store.get("self.matcher.csvpath.is_valid") is False for p in psf)
+    rep.check(okf, "R2", f"{ffail.file}::Fail._decide_match table", f"{[(p.result[0], p.final_store.get('self.matcher.csvpath.is_valid')) for p in psf][:3]}; documented: the verdict is False after fail() on every path", K.where(ffail, ffail.node))
     # guards of each documented writer
     for s in stores:
         fi, t, v, st = s["fi"], s["target"], s["value"], s["stmt"]
@@ -334,7 +348,7 @@ def _r2_signal(idx, rep):
     sites = K.calls_named(idx, {"fail_all"})
     for s in sites:
         fi = s["fi"]
-        okc = fi.qual == "FailAll._decide_match"
+        okc = K.owner_of(idx, fi, {"FailAll._decide_match"}) is not None
         rep.check(okc, "R2", f"{fi.file}::{fi.qual} calls fail_all", "fail_all() may be called only from the fail_all() match function", K.where(fi, s["call"]))
     # FailAll._decide_match: the own verdict always; the group signal exactly when the csvpath belongs to a CsvPaths
     ff = idx.method("FailAll", "_decide_match")
@@ -353,10 +367,10 @@ def _r2_signal(idx, rep):
     st = K.attr_stores(idx, {"_fail_all"})
     for s in st:
         fi, v = s["fi"], s["value"]
-        if fi.qual == "CsvPaths.fail_all":
+        if K.owner_of(idx, fi, {"CsvPaths.fail_all"}) is not None:
             rep.check(K.is_const(v, True), "R2", f"{fi.file}::{fi.qual} store _fail_all", f"stores {unparse(v)}", K.where(fi, s["stmt"]))
         else:
-            rep.check(K.is_const(v, False) and fi.qual in ("CsvPaths.__init__", "CsvPaths.clear_run_coordination"), "R2",
+            rep.check(K.is_const(v, False) and K.owner_of(idx, fi, {"CsvPaths.__init__", "CsvPaths.clear_run_coordination"}) is not None, "R2",
                       f"{fi.file}::{fi.qual} store _fail_all", f"stores {unparse(v)} in {fi.qual}", K.where(fi, s["stmt"]))
 
 
